@@ -11,7 +11,9 @@ alone (mc/c03_model.py); the written file is also read by the independent reader
 Construction-order and call-history dimensions: H1/H2 (order in which the voices are added), D3 (the divisions
 table declared in any order and at any moment of the construction: mc/c03_model._build_part_phased, reference table
 mc/c03_model.q_final), C6 (printed words of directions in every letter case; two files handled one after the other in
-one process).
+one process), D4 (divisions changes at every place of a two-measure part: a later measure whose only entry of the
+divisions table lies in its middle, entries at the barline and in the middle, ...; the independent reader converts every
+backup/forward/duration with the divisions value in force).
 
 Clauses: export-total / import-total / reexport-total (no exception), roundtrip-<attribute group>
 (load(save(s)) == s on the statement's attributes), file-denotes-sounding-notes (independent reader),
@@ -312,6 +314,24 @@ def spaces(tier, seed):
     sp.append(Space(bname("D1-divisions-change"), blk(G.gen_D_divisions), True,
                     btxt + "divisions change q0->q1 (all ordered pairs from 1..4) in the middle of a 2/4 measure or at the barline of two 1/4 "
                     "measures; all cores of <=2 events not crossing the change"))
+    d4 = ("two 2/4 measures = four quarters, every assignment of a divisions value to the four quarters with a change in the "
+          "middle of at least one measure (the table changes at any subset of {middle of measure 1, barline, middle of "
+          "measure 2}: a later measure with a single entry in its middle and none at its start, an entry at its start and "
+          "one in its middle, ...), every mid-measure change on a time point (else: class of X1); ")
+    d4dense = "cores = every non-empty occupancy of the 8 places (voice{1,2}, quarter) by a note filling the quarter"
+    d4pairs = ("cores = all sets of <=2 events: span with a single symbol inside a quarter x {note voice 1, note voice 2, "
+               "rest voice 1}")
+    if q:
+        sp.append(Space("D4-divisions-changes-2measures-dense", lambda: G.gen_D_divisions_measures((1, 2), True), True,
+                        d4 + "divisions values {1,2} (12 assignments); " + d4dense))
+        sp.append(Space("D4-divisions-changes-2measures-pairs-block",
+                        G.stride(lambda: G.gen_D_divisions_measures((1, 2, 3), False), 16, seed % 16), True,
+                        "block %d of 16 (index stride) of: " % (seed % 16) + d4 + "divisions values {1,2,3} (72 assignments); " + d4pairs))
+    else:
+        sp.append(Space("D4-divisions-changes-2measures-dense", lambda: G.gen_D_divisions_measures((1, 2, 3), True), True,
+                        d4 + "divisions values {1,2,3} (72 assignments); " + d4dense))
+        sp.append(Space("D4-divisions-changes-2measures-pairs", lambda: G.gen_D_divisions_measures((1, 2, 3), False), True,
+                        d4 + "divisions values {1,2,3} (72 assignments); " + d4pairs))
     d3 = ("declaration history of the divisions table = Part(quarter_duration=init) and calls set_quarter_duration(t, q) "
           "made at a cut of the construction (before any object / after page, system, measures and time signature / after "
           "all notes), t in the times of the final table, init and q in its values plus one value it does not use; every "
